@@ -107,7 +107,9 @@ def cli(argv=sys.argv, mode='output'):
     argv = [str(x) for x in argv]
 
     # Process the options
-    args = parser.parse_args(argv[1:])
+    # error reports are DIMACS comments, like every other message
+    with msg_prefix('c '):
+        args = parser.parse_args(argv[1:])
 
     # If necessary, init the random generator
     if hasattr(args, 'seed') and args.seed:
@@ -119,10 +121,11 @@ def cli(argv=sys.argv, mode='output'):
 
     with msg_prefix("c INPUT: "):
         interactive_msg(msg, filltext=70)
-    try:
-        F = CNF.from_file(args.input)
-    except OSError as e:
-        raise CLIError("ERROR: cannot read the input: {}".format(e))
+    with msg_prefix('c '):
+        try:
+            F = CNF.from_file(args.input)
+        except OSError as e:
+            raise CLIError("ERROR: cannot read the input: {}".format(e))
 
     # Default permutation
     polarity_flips='fixed' if args.no_polarity_flips else 'shuffle'
